@@ -177,7 +177,7 @@ def mk_alt(sym, spec, L, hi=None):
     for c in spec.get('order', ()):
         if c == 'ver':
             op = B(b'=') if spec.get('op', 'e') == '=' else sym.op2(spec.get('op', 'e'))
-            alt['clauses'].append(('ver', op, sym.leaf(L, *alph('ver', DIGITS, VERC))))
+            alt['clauses'].append(('ver', op, tuple(spec['ver_text']) if spec.get('ver_text') else sym.leaf(L, *alph('ver', DIGITS, VERC))))
         elif c == 'arch':
             names = spec['archs']
             alt['clauses'].append(('arch', spec.get('neg', False), [sym.leaf(L, *alph('arch', LOW, LOW)) if n == 'sym' else n for n in names]))
